@@ -291,14 +291,19 @@ func (t *tracer) classify(th *thread, nr uint64, a [6]uint64) pendingCall {
 			pc.ev = Event{Sys: "rename", A: x, B: y}
 		}
 	case sysNewfstatat, sysStat, sysLstat, sysStatx:
-		dirfd, pa := int64(a[0]), a[1]
+		dirfd, pa, fl := int64(a[0]), a[1], int(a[3])
 		if nr == sysStat || nr == sysLstat {
-			dirfd, pa = atFdcwd, a[0]
+			dirfd, pa, fl = atFdcwd, a[0], 0
+			if nr == sysLstat {
+				fl = 0x100
+			}
+		} else if nr == sysStatx {
+			fl = int(a[2])
 		}
 		if s, ok := readCString(th.tid, pa); ok && s != "" { // empty path: fstat of an fd
 			if p, ok := t.resolve(pr, dirfd, s); ok {
 				pc.traced = true
-				pc.ev = Event{Sys: "stat", A: p}
+				pc.ev = Event{Sys: "stat", A: p, Fl: fl & 0x100} // 0x100 = AT_SYMLINK_NOFOLLOW (lstat)
 			}
 		}
 	case sysFchmodat, sysChmod, sysFchmodat2:
